@@ -72,14 +72,58 @@ def event (op : Op) (impl : String) : LeaseSpec.Ev :=
       | _, _ => .nop
   | _, _ => .nop
 
-/-- the exclusion clauses of the recorded findings, evaluated on the state BEFORE the event -/
-def clause (c : Cfg) (mon : LeaseSpec.Mon) (v : String) : String :=
-  -- D20: a grace period the 2-bit generation tag cannot represent.  byte(grace) ≥ 3: nothing ever lapses,
-  -- so lapsed leases stay held (expiry / count / exhaustion while such a lease exists); otherwise
-  -- (grace ≥ 256) the truncated grace period reclaims leases early (reclaimed / count).
-  if c.grace ≥ 3 ∧ c.graceB ≥ 3 ∧ !mon.ghost.isEmpty ∧ (v == "expiry" || v == "count" || v == "exhaustion") then "D20"
-  else if c.grace ≥ 3 ∧ c.graceB < 3 ∧ (v == "reclaimed" || v == "count" || v == "lost") then "D20"
-  -- KF-epoch-tiny: a one-address pool reports 2^64-1 usable addresses (totalIPs - 2 wraps)
+/-- The exclusion clauses of the recorded findings, evaluated on the monitor state BEFORE the event.
+    D20 = a grace period the 2-bit generation tag cannot represent (grace ≥ 3), narrowly:
+    * byte(grace) ≥ 3 — nothing ever lapses, so exactly the leases that lapsed by the specification (`ghost`)
+      are still held: `expiry` for such a lease; `count` only when the reported figure is the live leases PLUS
+      the ghosts; `exhaustion` only when live leases plus ghosts fill the pool;
+    * byte(grace) < 3 (grace ≥ 256) — the truncated grace period drops a lease byte(grace)+1 epochs after its
+      last renewal: `reclaimed` only for a lease that old; `count` only when the reported figure is the live
+      leases MINUS those that old; `unique`/`idempotent` only when the lease concerned is that old (its address
+      was dropped early and handed out again).
+    KF-epoch-tiny = a one-address pool reports 2^64-1 usable addresses. -/
+def clause (c : Cfg) (units : Nat) (mon : LeaseSpec.Mon) (ev : LeaseSpec.Ev) (v : String) : String :=
+  let gb := c.graceB
+  let live := mon.mon.length
+  let ghosts := mon.ghost.length
+  -- dropped early by the truncated grace period
+  let early := fun (k : Nat) => decide ((AMap.lookup mon.renewed k).getD 0 + gb < mon.epoch)
+  let earlyCount := (mon.mon.filter fun p => early p.1).length
+  if c.grace ≥ 3 ∧ gb ≥ 3 then
+    if v == "expiry" then (if ghosts > 0 then "D20" else "none")
+    else if v == "count" then
+      match ev with
+      | .stats al _ => if ghosts > 0 ∧ al = live + ghosts then "D20" else "none"
+      | _ => "none"
+    else if v == "exhaustion" then (if ghosts > 0 ∧ live + ghosts ≥ units then "D20" else "none")
+    else if c.total < 2 ∧ v == "total" then "KF-epoch-tiny"
+    else "none"
+  else if c.grace ≥ 3 ∧ gb < 3 then
+    if v == "reclaimed" then
+      match ev with
+      | .looked k none => if early k then "D20" else "none"
+      | .renewRefused k => if early k then "D20" else "none"
+      | .owner a none => match PoolSpec.holderOf mon.mon a with
+        | some k => if early k then "D20" else "none"
+        | none => "none"
+      | _ => "none"
+    else if v == "count" then
+      match ev with
+      | .stats al _ => if earlyCount > 0 ∧ al + earlyCount = live then "D20" else "none"
+      | _ => "none"
+    -- the early-dropped lease's address was handed to somebody else / its holder got another one
+    else if v == "unique" then
+      match ev with
+      | .got k a => match PoolSpec.holderOf (AMap.erase mon.mon k) a with
+        | some k' => if early k' then "D20" else "none"
+        | none => "none"
+      | _ => "none"
+    else if v == "idempotent" then
+      match ev with
+      | .got k _ => if early k then "D20" else "none"
+      | _ => "none"
+    else if c.total < 2 ∧ v == "total" then "KF-epoch-tiny"
+    else "none"
   else if c.total < 2 ∧ v == "total" then "KF-epoch-tiny"
   else "none"
 
@@ -95,13 +139,31 @@ def step (st : St) (toks : List String) (impl : String) : St × LineResult :=
          { modelObs := "ok" })
       else ({}, { modelObs := "invalid" })
     | _, _, _, _, _ => (st, { modelObs := "badop" })
+  | ["stress", _] =>
+    -- concurrent callers on a fresh allocator, audited by the harness: the clause it names is the verdict
+    let vs := match splitTokens impl with
+      | "viol" :: mon :: rest => [(mon, "none", " ".intercalate rest)]
+      | _ => []
+    (st, { modelObs := "ok", viols := vs })
+  | ["util"] =>
+    match st.model with
+    | some m =>
+      let ev : LeaseSpec.Ev := match splitTokens impl with
+        | kind :: _ => .util kind
+        | [] => .nop
+      let (mon', vs) := LeaseSpec.check st.geo st.mon ev
+      ({ st with mon := mon' },
+       { modelObs := s!"{utilKind m} {m.subs.length} {m.cfg.usable}",
+         viols := vs.map fun (n, d) => (n, "none", d) })
+    | none => (st, { modelObs := "badop" })
   | _ =>
     match st.model, parseOp toks with
     | some m, some op =>
       let (m', o) := Epoch.step m op
-      let (mon', vs) := LeaseSpec.check st.geo st.mon (event op impl)
+      let ev := event op impl
+      let (mon', vs) := LeaseSpec.check st.geo st.mon ev
       ({ st with model := some m', mon := mon' },
-       { modelObs := showObs o, viols := vs.map fun (n, d) => (n, clause m.cfg st.mon n, d) })
+       { modelObs := showObs o, viols := vs.map fun (n, d) => (n, clause m.cfg st.geo.units st.mon ev n, d) })
     | _, _ => (st, { modelObs := "badop" })
 
 def component : Component := { σ := St, init := {}, step := step }
